@@ -28,6 +28,20 @@ RAISING = {
 }
 
 
+def total_subclass_test(x):
+    """`issubclass(type(v), T)` with T a builtin class (or a tuple of them): type(v) is always a class and the check of a builtin
+    class cannot be customised by v, so the call is total"""
+    import ast as _a
+    if not (isinstance(x, _a.Call) and isinstance(x.func, _a.Name) and x.func.id == "issubclass" and len(x.args) == 2 and not x.keywords):
+        return False
+    a, t = x.args
+    if not (isinstance(a, _a.Call) and isinstance(a.func, _a.Name) and a.func.id == "type" and len(a.args) == 1):
+        return False
+    B = {"str", "int", "float", "bool", "bytes", "bytearray", "list", "tuple", "dict", "set", "frozenset", "complex", "object", "type"}
+    ts = t.elts if isinstance(t, _a.Tuple) else [t]
+    return all(isinstance(e, _a.Name) and e.id in B for e in ts)
+
+
 _HOSTILE_MEMO = {}
 
 
@@ -62,6 +76,13 @@ def hostile_str_params(fi, res, _busy=()):
                 return bool(defs) and all(_is_digest(d) or isinstance(d, ast.Constant) for d in defs)
             if isinstance(a, ast.JoinedStr):
                 return all(isinstance(v, ast.Constant) or (isinstance(v, ast.FormattedValue) and clean(v.value)) for v in a.values)
+            if isinstance(a, ast.Attribute) and isinstance(a.value, ast.Name):
+                # `result.reason` right after `result = FilterResult(…, reason="literal")` in the same block: the field's value
+                rd = _reaching_def_in_block(call, a.value.id)
+                if isinstance(rd, ast.Call):
+                    kw = [k.value for k in rd.keywords if k.arg == a.attr]
+                    return len(kw) == 1 and clean(kw[0])
+                return False
             return _is_digest(a)
         off = 1 if params and params[0] == "self" and isinstance(call.func, ast.Attribute) else 0
         for i, a in enumerate(call.args):
@@ -73,6 +94,29 @@ def hostile_str_params(fi, res, _busy=()):
     out = hostile if sites else strparams
     _HOSTILE_MEMO[key] = out
     return out
+
+
+def _reaching_def_in_block(node, name):
+    """the value last assigned to local `name` before the statement containing `node`, when that assignment is an earlier
+    simple statement of the same block and nothing in between can rebind the name; else None"""
+    st = node
+    while st is not None and not isinstance(st, ast.stmt):
+        st = parent(st)
+    if st is None:
+        return None
+    par = parent(st)
+    for fld in ("body", "orelse", "finalbody"):
+        lst = getattr(par, fld, None)
+        if isinstance(lst, list) and st in lst:
+            for prev in reversed(lst[:lst.index(st)]):
+                if isinstance(prev, ast.Assign) and len(prev.targets) == 1 and isinstance(prev.targets[0], ast.Name) and prev.targets[0].id == name:
+                    return prev.value
+                if any(isinstance(y, ast.Name) and y.id == name and isinstance(y.ctx, (ast.Store, ast.Del)) for y in ast.walk(prev)):
+                    return None
+                if any(isinstance(y, ast.Attribute) and isinstance(y.ctx, ast.Store) and isinstance(y.value, ast.Name) and y.value.id == name for y in ast.walk(prev)):
+                    return None
+            return None
+    return None
 
 
 def _is_digest(e):
@@ -128,7 +172,7 @@ def exceptions_of(n, fi, summary, res):
             if last in ("loads",) and "json" in d:
                 out |= RAISING["json.loads"]
                 continue
-            if d in TOTAL_CALLS or (isinstance(x.func, ast.Attribute) and last in TOTAL_METHODS) or d.startswith("hashlib.") or d.startswith("time.") or d.startswith("datetime."):
+            if d in TOTAL_CALLS or total_subclass_test(x) or (isinstance(x.func, ast.Attribute) and last in TOTAL_METHODS) or d.startswith("hashlib.") or d.startswith("time.") or d.startswith("datetime."):
                 continue
             tgts = res.resolve_call(fi, x)
             if tgts:
